@@ -402,7 +402,14 @@ fn check_ipa(c: &Case, ctx: &mut CaseCtx) -> Result<(), Failure> {
         return ctx.fail(sig(P, "ipa", "setup", "bad_generators"), e);
     }
     ctx.asserts += 1;
-    let (ck, vk) = match guard(|| IpaPC::trim(&pp, sup_req, 0, None)) {
+    // the enforced-bound list is documented as ignored by this scheme: None, empty or a generated list
+    let blist: Option<Vec<usize>> = match c.key.c % 3 {
+        0 => None,
+        1 => Some(vec![]),
+        _ => Some(vec![1 + pick(c.key.a, sup_req), 1 + pick(c.key.b ^ 0x5a5a, sup_req)]),
+    };
+    ctx.label_if(blist.as_ref().map(|b| !b.is_empty()).unwrap_or(false), "trim_with_a_bound_list");
+    let (ck, vk) = match guard(|| IpaPC::trim(&pp, sup_req, 0, blist.as_deref())) {
         Out::Ok(k) => k,
         o => return ctx.fail(sig(P, "ipa", "trim", "in_range_refused"), o.describe_nodebug()),
     };
